@@ -40,6 +40,7 @@ def ex(n):
     n = strip(n); k = n['kind']
     if k == 'DeclRefExpr': return n['referencedDecl']['name']
     if k == 'IntegerLiteral': return n['value']
+    if k == 'CXXBoolLiteralExpr': return 'true' if n.get('value') else 'false'
     if k == 'UnaryOperator' and n['opcode'] == '*' and strip(n['inner'][0])['kind'] == 'CXXThisExpr': return 'THIS'   # return *this
     if k == 'BinaryOperator' and n['opcode'] in ('!=', '==') and strip(n['inner'][0])['kind'] == 'CXXThisExpr':
         r = strip(n['inner'][1])   # this != std::addressof(o)
